@@ -1337,4 +1337,40 @@ impl<const M: usize> Sim<M> {
         }
         rep.bump("c12.other_blocks_still_reserved_checks");
     }
+
+    /// alloc_slice_fill_default / try_alloc_slice_fill_default (u64 or [u8; 24]: zero patterns)
+    pub fn op_alloc_slice_default(&mut self, rep: &mut Report, len: usize, wide: bool, fallible: bool) -> Outcome {
+        let (esz, align) = if wide { (24usize, 1usize) } else { (8, 8) };
+        let size = esz * len;
+        self.cur = format!("{}alloc_slice_fill_default<{}B>(len={})", if fallible { "try_" } else { "" }, esz, len);
+        let cap_before = self.bump.chunk_capacity();
+        self.begin();
+        let b: &Bump<M> = &**self.bump;
+        let r = catch_unwind(AssertUnwindSafe(|| -> Option<*mut u8> {
+            match (wide, fallible) {
+                (false, false) => Some(b.alloc_slice_fill_default::<u64>(len).as_mut_ptr() as *mut u8),
+                (false, true) => b.try_alloc_slice_fill_default::<u64>(len).ok().map(|s| s.as_mut_ptr() as *mut u8),
+                (true, false) => Some(b.alloc_slice_fill_default::<[u8; 24]>(len).as_mut_ptr() as *mut u8),
+                (true, true) => b.try_alloc_slice_fill_default::<[u8; 24]>(len).ok().map(|s| s.as_mut_ptr() as *mut u8),
+            }
+        }));
+        let ev = self.end(rep, OpKind::Alloc);
+        let out = match r {
+            Ok(Some(p)) => {
+                self.register(rep, p, size, align, vec![0u8; size], Some((size, align)), "alloc_slice_fill_default");
+                Outcome::Ok
+            }
+            Ok(None) => {
+                self.on_alloc_failure(rep, fallible, false, size, align, cap_before, "alloc_slice_fill_default");
+                Outcome::Err
+            }
+            Err(_) => {
+                self.on_alloc_failure(rep, fallible, true, size, align, cap_before, "alloc_slice_fill_default");
+                Outcome::Panic
+            }
+        };
+        self.after_op(rep, OpKind::Alloc, &ev);
+        self.tr(&[16, out as u64]);
+        out
+    }
 }
